@@ -40,7 +40,7 @@ def all_sets(maxn):
 
 # ---------------------------------------------------------------- simplify
 def simplify_events(maxn):
-    sys.path.insert(0, '/repo')
+    sys.path.insert(0, os.environ.get('VERIF_REPO', '/repo'))
     from bfg9000.versioning import simplify_specifiers, SpecifierSet, Version
     evs = []
     for s in all_sets(maxn):
